@@ -3,11 +3,15 @@ import math
 from fractions import Fraction
 
 from harness import common as C
+from translate import c08 as T08
 
 ID = 'C09'
 PROPS_V = 'C09/Props.v'
 LEVEL = 'proof'
 TRUSTED = [
+    'translate/c08.py: ast extraction of the index / comparison / constant arithmetic of bspline.py (77 expressions of '
+    '__init__, intrv, bsplvn, action, value, fit, maskpoints, cholesky_band, iterfit) into coq/Generated/BSpline.v; '
+    'BSpline/GenBridge.v + the Cxx_generated_* obligations prove that the hand-written reference models are built from exactly these',
     'hand-written models coq/BSpline/Eval.v + Fit.v (design rows from intrv/bsplvn, normal equations from the data, '
     'band_assemble, maskpoints_model/fit_status_model) -- tied to bspline.fit/action/maskpoints by the correspondence run',
     'the dense solver gj_inverse is NOT trusted: fit_dense only returns a vector after re-multiplying on the data '
@@ -24,6 +28,10 @@ ASSUMPTIONS = [
     'for ill-posed problems that pass the diagonal screening (near-singular but numerically factorisable) only the '
     'outcome class (status code, finite coefficients, no exception) is checked',
 ]
+
+def translate(ctx):
+    return {'BSpline': T08.regenerate(C)}
+
 
 HEADER = '''From Coq Require Import QArith ZArith List. Import ListNotations.
 From PV Require Import BSpline.Eval BSpline.Fit C09.Model. Open Scope Q_scope.'''
